@@ -1,4 +1,7 @@
 pub mod c01;
+pub mod c02;
+pub mod c07;
+pub mod c08;
 
 use crate::driver::CheckSpec;
 
@@ -14,6 +17,9 @@ pub const STUBS: &[&str] = &[
 pub fn spec(id: &str) -> Option<CheckSpec> {
     match id {
         "C01" => Some(c01::spec()),
+        "C02" => Some(c02::spec()),
+        "C07" => Some(c07::spec()),
+        "C08" => Some(c08::spec()),
         _ => None,
     }
 }
